@@ -252,3 +252,37 @@ class AgentBehaviour(RandomBehaviour):
                 else:
                     rep.calls.append(("get_data", {f"{ill['target']}.E0": [ill.get("attr", "p")]}))
         return rep
+
+
+class ModelBehaviour(RandomBehaviour):
+    """Replies dictated by a behaviour of the TLA+ specification MosaikSched (spec -> code).
+    table[(sid, "step", k)] = {"__reply__": int|None|"bad", "calls": [["set_data", target, attr, n], ...]}
+    table[(sid, "get_data", k)] = {"__data__": [[eid, attr], ...], "dt": int}
+    Values are the provenance tokens the specification uses (Tok(s, k, a))."""
+
+    def __init__(self, table, seed=0):
+        super().__init__(seed)
+        self.table = table
+        self.unscripted = 0
+
+    def reply(self, ctx, p):
+        ent = self.table.get((p.sid, p.kind, p.k))
+        if ent is None:
+            self.unscripted += 1
+            if p.kind == "step":
+                typ = S.sim_by_id(ctx.scn)[p.sid]["type"]
+                return Reply(p.args[0] + 1 if typ == "time-based" else None)
+            return Reply({eid: {a: tok(p.sid, p.k, a) for a in attrs if S.is_pers(a)} for eid, attrs in p.args[0].items()})
+        if p.kind == "step":
+            v = ent["__reply__"]
+            rep = Reply(1.5 if v == "bad" else v)
+            for c in ent.get("calls", []):
+                _, target, attr, n = c
+                rep.calls.append(("set_data", {f"{p.sid}.E0": {f"{target}.E0": {attr: tok(p.sid, p.k, f"sd{n}")}}}))
+            return rep
+        data = {eid: {} for eid in p.args[0]}
+        for eid, a in ent["__data__"]:
+            data.setdefault(eid, {})[a] = tok(p.sid, p.k, a)
+        if ent.get("dt"):
+            data["time"] = ctx.steptime[p.sid] + ent["dt"]
+        return Reply(data)
